@@ -198,5 +198,8 @@ def run(cx: Cx):
     from .common import include_premises
     include_premises(cx, ['C08'], 'placing an agent outside a spatial world must fail: the placement test is C08\'s',
                      only=lambda o: o.function.endswith('.add_agent') or o.function.endswith('.remove_agent'))
-    include_premises(cx, ['C03'], 'a present agent can always be removed and the listings follow: join/leave bookkeeping is C03\'s',
-                     only=lambda o: o.function.endswith('.add_agent') or o.function.endswith('.remove_agent'))
+    _JOIN_LEAVE = ('.add_agent', '.remove_agent', '.register_component', '.deregister_component', '.get_component', '.__getitem__',
+                   '.add_component', '.remove_component')
+    include_premises(cx, ['C03'], 'a present agent can always be removed and the listings follow: join/leave bookkeeping, and the '
+                     'component accessors and pool operations it goes through, are C03\'s',
+                     only=lambda o: (o.function or '').endswith(_JOIN_LEAVE) or 'compare-by-identity' in o.key)
